@@ -255,4 +255,326 @@ theorem mrun_spec {α : Type} [RealLike α] (breaks : Nat → α) (os : List MOp
     obtain ⟨h3, h4⟩ := ih _ h1
     exact ⟨h3, le_trans h2 h4⟩
 
+/-! ### `multi_invccdf_sorted`: the index loop as a stack loop -/
+
+
+
+/-- index of the first element of `qs` below `p` (`qs.length` if none) -/
+def idxBelow {α : Type} [RealLike α] (p : α) : List α → Nat
+  | [] => 0
+  | q :: qs => if RealLike.lt q p then 0 else idxBelow p qs + 1
+
+/-- the inner `while` of `multi_invccdf_sorted` on the stack of pending probabilities (largest on top): pop while
+    the top exceeds `q`, except that the LAST pending probability is emitted but never popped (`i == 0 → break`) -/
+def absInner {α : Type} [RealLike α] (q0 : Nat) (q : α) : List α → List Nat → List α × List Nat
+  | [], res => ([], res)
+  | [p], res => if RealLike.gt p q then ([p], res ++ [q0]) else ([p], res)
+  | p :: p' :: rest, res =>
+    if RealLike.gt p q then absInner q0 q (p' :: rest) (res ++ [q0]) else (p :: p' :: rest, res)
+
+def absOuter {α : Type} [RealLike α] : List (Nat × α) → List α → List Nat → List Nat
+  | [], _, res => res
+  | (q0, q) :: rest, st, res => absOuter rest (absInner q0 q st res).1 (absInner q0 q st res).2
+
+/-- `enumerate()` starting at `t` -/
+def enumFrom' {α : Type} (t : Nat) (qs : List α) : List (Nat × α) := (List.range' t qs.length).zip qs
+
+theorem enumFrom'_cons {α : Type} (t : Nat) (q : α) (qs : List α) :
+    enumFrom' t (q :: qs) = (t, q) :: enumFrom' (t + 1) qs := by
+  simp [enumFrom', List.range'_succ]
+
+theorem enumL_eq {α : Type} (qs : List α) : enumL qs = enumFrom' 0 qs := by
+  simp [enumL, enumFrom', List.range_eq_range']
+
+/-- everything is emitted when every pending probability exceeds `q` -/
+theorem absInner_all {α : Type} [RealLike α] (q0 : Nat) (q : α) (st : List α) (res : List Nat) (hne : st ≠ [])
+    (hall : ∀ p ∈ st, RealLike.gt p q = true) :
+    absInner q0 q st res = ([st.getLast hne], res ++ List.replicate st.length q0) := by
+  induction st generalizing res with
+  | nil => exact absurd rfl hne
+  | cons p t ih =>
+    cases t with
+    | nil => simp [absInner, hall p (List.mem_cons_self ..)]
+    | cons p' rest =>
+      have hp := hall p (List.mem_cons_self ..)
+      simp only [absInner, hp, if_true]
+      rw [ih (res ++ [q0]) (by simp) (fun x hx => hall x (List.mem_cons_of_mem _ hx))]
+      simp [List.replicate_succ, List.getLast_cons]
+
+/-- when the last pending probability does not exceed `q` the loop is `dropWhile` -/
+theorem absInner_keep {α : Type} [RealLike α] (q0 : Nat) (q : α) (st : List α) (res : List Nat) (hne : st ≠ [])
+    (hlast : RealLike.gt (st.getLast hne) q = false) :
+    absInner q0 q st res = (st.dropWhile (fun p => RealLike.gt p q),
+      res ++ List.replicate (st.takeWhile (fun p => RealLike.gt p q)).length q0) := by
+  induction st generalizing res with
+  | nil => exact absurd rfl hne
+  | cons p t ih =>
+    cases t with
+    | nil =>
+      have : RealLike.gt p q = false := by simpa using hlast
+      simp [absInner, this, List.dropWhile, List.takeWhile]
+    | cons p' rest =>
+      by_cases hp : RealLike.gt p q = true
+      · simp only [absInner, hp, if_true]
+        rw [ih (res ++ [q0]) (by simp) (by simpa [List.getLast_cons] using hlast)]
+        simp [List.dropWhile_cons, List.takeWhile_cons, hp, List.replicate_succ]
+      · have hp' : RealLike.gt p q = false := by simpa using hp
+        simp [absInner, hp', List.dropWhile_cons, List.takeWhile_cons]
+
+theorem take_succ_reverse {α : Type} [RealLike α] (ps : List α) (i : Nat) (hi : i < ps.length) :
+    (ps.take (i + 1)).reverse = ps.getD i RealLike.nan :: (ps.take i).reverse := by
+  rw [List.take_add_one, List.reverse_append]
+  simp [List.getD_eq_getElem?_getD, List.getElem?_eq_getElem hi]
+
+/-- the index loop of the code is the stack loop on `ps[0..=i]` reversed -/
+theorem multiInner_abs {α : Type} [RealLike α] (ps : List α) (q0 : Nat) (q : α) (i : Nat) (res : List Nat)
+    (hi : i < ps.length) :
+    (multiInner ps q0 q (i + 1) i res).1 < ps.length ∧
+    absInner q0 q (ps.take (i + 1)).reverse res
+      = ((ps.take ((multiInner ps q0 q (i + 1) i res).1 + 1)).reverse, (multiInner ps q0 q (i + 1) i res).2) := by
+  induction i generalizing res with
+  | zero =>
+    rw [take_succ_reverse ps 0 hi]
+    simp only [List.take_zero, List.reverse_nil]
+    by_cases hg : RealLike.gt (ps.getD 0 RealLike.nan) q = true
+    · simp only [multiInner, absInner, hg, if_true, beq_self_eq_true]
+      refine ⟨hi, ?_⟩
+      rw [take_succ_reverse ps 0 hi]; simp
+    · have hg' : RealLike.gt (ps.getD 0 RealLike.nan) q = false := by simpa using hg
+      simp only [multiInner, absInner, hg', Bool.false_eq_true, if_false]
+      refine ⟨hi, ?_⟩
+      rw [take_succ_reverse ps 0 hi]; simp
+  | succ i ih =>
+    have hi' : i < ps.length := by omega
+    rw [take_succ_reverse ps (i + 1) hi, take_succ_reverse ps i hi']
+    by_cases hg : RealLike.gt (ps.getD (i + 1) RealLike.nan) q = true
+    · obtain ⟨h1, h2⟩ := ih (res ++ [q0]) hi'
+      rw [take_succ_reverse ps i hi'] at h2
+      simp only [multiInner, absInner, hg, if_true, Nat.add_sub_cancel]
+      have : ((i + 1 == 0) = false) := by simp
+      simp only [this, Bool.false_eq_true, if_false]
+      exact ⟨h1, h2⟩
+    · have hg' : RealLike.gt (ps.getD (i + 1) RealLike.nan) q = false := by simpa using hg
+      simp only [multiInner, absInner, hg', Bool.false_eq_true, if_false]
+      refine ⟨hi, ?_⟩
+      rw [take_succ_reverse ps (i + 1) hi, take_succ_reverse ps i hi']
+
+theorem multiOuter_abs {α : Type} [RealLike α] (ps : List α) (qs : List (Nat × α)) (i : Nat) (res : List Nat)
+    (hi : i < ps.length) :
+    multiOuter ps qs i res = absOuter qs (ps.take (i + 1)).reverse res := by
+  induction qs generalizing i res with
+  | nil => rfl
+  | cons x rest ih =>
+    obtain ⟨q0, q⟩ := x
+    obtain ⟨h1, h2⟩ := multiInner_abs ps q0 q i res hi
+    simp only [multiOuter, absOuter]
+    rw [ih _ _ h1, h2]
+
+theorem gt_val (a b : R) : RealLike.gt a b = decide (b.val < a.val) := rfl
+
+theorem sorted_ge_last (st : List R) (hne : st ≠ []) (hs : st.Pairwise (fun a b => b.val ≤ a.val)) :
+    ∀ p ∈ st, (st.getLast hne).val ≤ p.val := by
+  induction st with
+  | nil => exact absurd rfl hne
+  | cons a t ih =>
+    cases t with
+    | nil => intro p hp; simp at hp; subst hp; simp
+    | cons b rest =>
+      rw [List.pairwise_cons] at hs
+      intro p hp
+      rw [List.getLast_cons (by simp)]
+      rcases List.mem_cons.mp hp with rfl | hp
+      · exact hs.1 _ (List.getLast_mem _)
+      · exact ih (by simp) hs.2 p hp
+
+theorem dropWhile_last (st : List R) (f : R → Bool) (hne : st ≠ []) (hl : f (st.getLast hne) = false) :
+    ∃ h : st.dropWhile f ≠ [], (st.dropWhile f).getLast h = st.getLast hne := by
+  induction st with
+  | nil => exact absurd rfl hne
+  | cons a t ih =>
+    by_cases ha : f a = true
+    · have ht : t ≠ [] := by
+        intro e; subst e; simp at hl; rw [hl] at ha; cases ha
+      rw [List.getLast_cons ht] at hl
+      obtain ⟨h, e⟩ := ih ht hl
+      simp only [List.dropWhile_cons, ha, if_true]
+      exact ⟨h, by rw [e, List.getLast_cons ht]⟩
+    · have ha' : f a = false := by simpa using ha
+      simp only [List.dropWhile_cons, ha', Bool.false_eq_true, if_false]
+      exact ⟨List.cons_ne_nil _ _, trivial⟩
+
+theorem dropWhile_all_le (st : List R) (q : R) (hs : st.Pairwise (fun a b => b.val ≤ a.val)) :
+    ∀ p ∈ st.dropWhile (fun p => RealLike.gt p q), ¬ q.val < p.val := by
+  induction st with
+  | nil => simp
+  | cons a t ih =>
+    rw [List.pairwise_cons] at hs
+    by_cases ha : RealLike.gt a q = true
+    · simp only [List.dropWhile_cons, ha, if_true]
+      exact ih hs.2
+    · have ha' : RealLike.gt a q = false := by simpa using ha
+      simp only [List.dropWhile_cons, ha', Bool.false_eq_true, if_false]
+      have haq : ¬ q.val < a.val := by simpa [gt_val] using ha'
+      intro p hp
+      rcases List.mem_cons.mp hp with rfl | hp
+      · exact haq
+      · have := hs.1 p hp
+        linarith
+
+theorem idxBelow_cons_lt (p q : R) (qs : List R) (h : q.val < p.val) : idxBelow p (q :: qs) = 0 := by
+  have : RealLike.lt q p = true := by simpa using h
+  simp [idxBelow, this]
+
+theorem idxBelow_cons_ge (p q : R) (qs : List R) (h : ¬ q.val < p.val) :
+    idxBelow p (q :: qs) = idxBelow p qs + 1 := by
+  have : RealLike.lt q p = false := by simpa using h
+  simp [idxBelow, this]
+
+/-- the stack loop over a minimal materialisation emits, for every pending probability, the index of the first
+    remaining ccdf value below it -/
+theorem absOuter_spec (qs : List R) (t : Nat) (st : List R) (res : List Nat)
+    (hne : st ≠ []) (hs : st.Pairwise (fun a b => b.val ≤ a.val)) (hq : qs ≠ [])
+    (hmin : ∀ q ∈ qs.dropLast, ¬ q.val < (st.getLast hne).val)
+    (hlast : (qs.getLast hq).val < (st.getLast hne).val) :
+    absOuter (enumFrom' t qs) st res = res ++ st.map (fun p => t + idxBelow p qs) := by
+  induction qs generalizing t st res with
+  | nil => exact absurd rfl hq
+  | cons q rest ih =>
+    cases rest with
+    | nil =>
+      simp only [List.getLast_singleton] at hlast
+      have hall : ∀ p ∈ st, RealLike.gt p q = true := by
+        intro p hp
+        have := sorted_ge_last st hne hs p hp
+        simp only [gt_val, decide_eq_true_eq]; linarith
+      simp only [enumFrom'_cons, absOuter]
+      rw [show enumFrom' (t + 1) ([] : List R) = [] from rfl]
+      simp only [absOuter, absInner_all t q st res hne hall]
+      congr 1
+      symm
+      rw [List.eq_replicate_iff]
+      refine ⟨by simp, ?_⟩
+      intro b hb
+      obtain ⟨p, hp, rfl⟩ := List.mem_map.mp hb
+      have := hall p hp
+      simp only [gt_val, decide_eq_true_eq] at this
+      rw [idxBelow_cons_lt p q [] this]
+      rfl
+    | cons q2 rest2 =>
+      have hq0 : ¬ q.val < (st.getLast hne).val := hmin q (by simp [List.dropLast])
+      have hkeep : RealLike.gt (st.getLast hne) q = false := by simpa [gt_val] using hq0
+      obtain ⟨hne', hlast'⟩ := dropWhile_last st (fun p => RealLike.gt p q) hne hkeep
+      rw [enumFrom'_cons, absOuter, absInner_keep t q st res hne hkeep]
+      simp only
+      rw [ih (t + 1) (st.dropWhile (fun p => RealLike.gt p q)) _ hne'
+        (hs.sublist (List.dropWhile_sublist _)) (by simp)
+        (by
+          intro x hx
+          rw [hlast']
+          exact hmin x (by simp only [List.dropLast_cons_cons]; exact List.mem_cons_of_mem _ hx))
+        (by rw [hlast']; simpa [List.getLast_cons] using hlast)]
+      rw [List.append_assoc]
+      congr 1
+      conv_rhs => rw [← List.takeWhile_append_dropWhile (p := fun p => RealLike.gt p q) (l := st)]
+      rw [List.map_append]
+      congr 1
+      · symm
+        rw [List.eq_replicate_iff]
+        refine ⟨by simp, ?_⟩
+        intro b hb
+        obtain ⟨p, hp, rfl⟩ := List.mem_map.mp hb
+        have := (List.all_eq_true.mp (List.all_takeWhile (l := st) (p := fun p => RealLike.gt p q))) p hp
+        simp only [gt_val, decide_eq_true_eq] at this
+        rw [idxBelow_cons_lt p q _ this]
+        rfl
+      · apply List.map_congr_left
+        intro p hp
+        rw [idxBelow_cons_ge p q _ (dropWhile_all_le st q hs p hp)]
+        omega
+
+theorem idxBelow_spec (p : R) (qs : List R) (h : ∃ q ∈ qs, q.val < p.val) :
+    idxBelow p qs < qs.length ∧ (∃ q, qs[idxBelow p qs]? = some q ∧ q.val < p.val) ∧
+      ∀ i, i < idxBelow p qs → ∀ q, qs[i]? = some q → ¬ q.val < p.val := by
+  induction qs with
+  | nil => obtain ⟨q, hq, _⟩ := h; cases hq
+  | cons a t ih =>
+    by_cases ha : a.val < p.val
+    · rw [idxBelow_cons_lt p a t ha]
+      exact ⟨by simp, ⟨a, by simp, ha⟩, fun i hi => by omega⟩
+    · rw [idxBelow_cons_ge p a t ha]
+      obtain ⟨q, hq, hqp⟩ := h
+      have hq' : q ∈ t := by
+        rcases List.mem_cons.mp hq with rfl | hq
+        · exact absurd hqp ha
+        · exact hq
+      obtain ⟨h1, ⟨q', hq1, hq2⟩, h3⟩ := ih ⟨q, hq', hqp⟩
+      refine ⟨by simp; omega, ⟨q', by simpa using hq1, hq2⟩, ?_⟩
+      intro i hi x hx
+      cases i with
+      | zero => simp at hx; subst hx; exact ha
+      | succ i => exact h3 i (by omega) x (by simpa using hx)
+
+/-- `invccdf` in terms of the index of the first materialised ccdf value below `p` -/
+theorem invccdf_eq_idx (c : Nat → R) (p : R) (m fuel : Nat) (h0 : ¬ (c 0).val < p.val)
+    (hex : (c m).val < p.val) (hf : m ≤ fuel) (hf64 : fuel < 2 ^ 64) :
+    Sbd.invccdf c fuel p = some (idxBelow p ((List.range m).map (fun i => c (i + 1)))) := by
+  have hm : 1 ≤ m := by
+    by_contra hc
+    have : m = 0 := by omega
+    subst this; exact h0 hex
+  have hmem : ∃ q ∈ (List.range m).map (fun i => c (i + 1)), q.val < p.val :=
+    ⟨c m, List.mem_map.mpr ⟨m - 1, by simp; omega, by congr 1; omega⟩, hex⟩
+  obtain ⟨h1, ⟨q, hq1, hq2⟩, h3⟩ := idxBelow_spec p _ hmem
+  simp only [List.length_map, List.length_range] at h1
+  set k := idxBelow p ((List.range m).map (fun i => c (i + 1))) with hk
+  have hqk : q = c (k + 1) := by
+    rw [List.getElem?_map, List.getElem?_range h1] at hq1
+    simpa using hq1.symm
+  have := firstBelow_of_isFirst c p fuel 0 (k + 1) (by rw [R.lt_iff, ← hqk]; exact hq2)
+    (fun i _ hi => by
+      rw [R.lt_false_iff]
+      cases i with
+      | zero => exact h0
+      | succ i =>
+        apply h3 i (by omega) (c (i + 1))
+        rw [List.getElem?_map, List.getElem?_range (by omega)]
+        rfl)
+    (Nat.zero_le _) (by omega)
+  simp only [Sbd.invccdf, this, Option.map_some]
+  rw [subOneWrap_pos _ (by omega) (by omega)]
+  rfl
+
+theorem sinv_last {α : Type} [RealLike α] (breaks : Nat → α) (s : S α) (h : SInv breaks s) :
+    s.ccdf.getLastD RealLike.nan = ccdfFn breaks s.drawn := by
+  have hl := sinv_length breaks s h
+  rw [List.getLastD_eq_getLast?, List.getLast?_eq_getElem?, hl]
+  simp only [Nat.add_sub_cancel]
+  rw [sinv_get? breaks s h _ (by omega)]; rfl
+
+/-- `extend_until(last < p)` stops at the FIRST index whose ccdf is below `p` (among those not yet materialised) -/
+theorem extendUntil_min {α : Type} [RealLike α] (breaks : Nat → α) (p : α) (fuel : Nat) (s s' : S α)
+    (h : SInv breaks s)
+    (he : extendUntil breaks (fun cs => RealLike.lt (cs.getLastD RealLike.nan) p) fuel s = some s') :
+    s'.drawn ≤ s.drawn + fuel ∧ ∀ i, s.drawn ≤ i → i < s'.drawn → RealLike.lt (ccdfFn breaks i) p = false := by
+  induction fuel generalizing s with
+  | zero =>
+    simp only [extendUntil] at he
+    split at he
+    · injection he with he; subst he; exact ⟨by omega, fun i h1 h2 => by omega⟩
+    · cases he
+  | succ fuel ih =>
+    simp only [extendUntil] at he
+    split at he
+    · injection he with he; subst he; exact ⟨by omega, fun i h1 h2 => by omega⟩
+    · rename_i hpred
+      obtain ⟨h1, h2⟩ := ih (extend breaks s) (sinv_extend breaks s h) he
+      have hd : (extend breaks s).drawn = s.drawn + 1 := rfl
+      refine ⟨by omega, ?_⟩
+      intro i hi1 hi2
+      by_cases e : i = s.drawn
+      · subst e
+        rw [sinv_last breaks s h] at hpred
+        simpa using hpred
+      · exact h2 i (by omega) hi2
+
 end C19
